@@ -1,5 +1,289 @@
 package main
 
-func rtCases(args []string)   { panic("not yet") }
-func histCases(args []string) { panic("not yet") }
-func histChild(args []string) { panic("not yet") }
+import (
+	"bufio"
+	"bytes"
+	"encoding/json"
+	"flag"
+	"fmt"
+	"os"
+	"os/exec"
+	"reflect"
+	"time"
+
+	"github.com/ohler55/ojg"
+	"github.com/ohler55/ojg/alt"
+	"github.com/ohler55/ojg/oj"
+	"github.com/ohler55/ojg/sen"
+
+	"verif/harness/enctypes"
+	"verif/harness/enctypes2"
+)
+
+// ---------------------------------------------------------------- the type family of the history check (Recompose.tla)
+
+var family = map[string]any{
+	"A.T": enctypes.T{X: 4, Name: "t"},
+	"B.T": enctypes2.T{Y: "y", Flag: true},
+	"Anon1": struct {
+		P int
+		Q string
+	}{1, "q"},
+	"Anon2": struct {
+		R string
+		S int
+	}{"r", 2},
+	"A.U":  enctypes.U{Ts: []enctypes.T{{X: 1, Name: "a"}}, N: 2},
+	"A.V":  enctypes.V{P: &enctypes2.T{Y: "y", Flag: true}, N: 2},
+	"A.V1": enctypes.V1{P: &enctypes.T{X: 4, Name: "t"}, N: 3},
+	"A.W":  enctypes.W{I: &enctypes.T{X: 4, Name: "t"}, N: 2},
+}
+
+const createKey = "^"
+
+func decOpts() *ojg.Options {
+	o := ojg.DefaultOptions
+	o.CreateKey = createKey
+	o.TimeFormat = time.RFC3339Nano
+	return &o
+}
+
+type callRec struct {
+	T     string `json:"t"`
+	Ok    bool   `json:"ok"`
+	M     string `json:"m"`
+	Res   tvNode `json:"res"`
+	RefOk bool   `json:"refok"`
+	RefM  string `json:"refm"`
+	Ref   tvNode `json:"ref"`
+	Orig  tvNode `json:"orig"`
+}
+
+type histEvent struct {
+	Ev    string    `json:"ev"`
+	Mode  string    `json:"mode"`
+	H     []string  `json:"h"`
+	Calls []callRec `json:"calls"`
+}
+
+// recomposeVia runs one recomposition of data into a new value of type t through the chosen entry point.
+func recomposeVia(mode string, own *alt.Recomposer, data any, t reflect.Type) (res reflect.Value, err error) {
+	defer func() {
+		if r := recover(); r != nil {
+			err = fmt.Errorf("panic: %v", r)
+		}
+	}()
+	ptr := reflect.New(t)
+	switch mode {
+	case "own":
+		_, err = own.Recompose(data, ptr.Interface())
+	case "alt.Recompose":
+		_, err = alt.Recompose(data, ptr.Interface())
+	case "oj.Unmarshal":
+		err = oj.Unmarshal([]byte(oj.JSON(data, &ojg.Options{Sort: true})), ptr.Interface())
+	case "sen.Unmarshal":
+		err = sen.Unmarshal([]byte(sen.String(data, &ojg.Options{Sort: true})), ptr.Interface())
+	case "oj.Unmarshal/own":
+		err = oj.Unmarshal([]byte(oj.JSON(data, &ojg.Options{Sort: true})), ptr.Interface(), own)
+	default:
+		err = fmt.Errorf("unknown mode %s", mode)
+	}
+	return ptr.Elem(), err
+}
+
+func freshRecomposer() *alt.Recomposer {
+	r, err := alt.NewRecomposer(createKey, nil)
+	if err != nil {
+		panic(err)
+	}
+	return r
+}
+
+func runHistory(mode string, h []string) histEvent {
+	ev := histEvent{Ev: "hist", Mode: mode, H: h}
+	own := freshRecomposer()
+	alt.DefaultRecomposer.CreateKey = createKey
+	for _, id := range h {
+		v, ok := family[id]
+		if !ok {
+			fmt.Fprintln(os.Stderr, "unknown type id", id)
+			os.Exit(2)
+		}
+		rv := reflect.ValueOf(v)
+		data := alt.Decompose(v, decOpts())
+		c := callRec{T: id, Orig: project(rv)}
+		res, err := recomposeVia(mode, own, data, rv.Type())
+		c.Ok = err == nil
+		if err != nil {
+			c.M = trunc(err.Error())
+			c.Res = tvNode{"g": "other"}
+		} else {
+			c.Res = project(res)
+		}
+		// reference: a FRESH recomposer for this one call (through the instance API, so that nothing is shared)
+		refMode := "own"
+		if mode == "oj.Unmarshal" || mode == "sen.Unmarshal" {
+			refMode = "oj.Unmarshal/own"
+		}
+		ref, rerr := recomposeVia(refMode, freshRecomposer(), data, rv.Type())
+		c.RefOk = rerr == nil
+		if rerr != nil {
+			c.RefM = trunc(rerr.Error())
+			c.Ref = tvNode{"g": "other"}
+		} else {
+			c.Ref = project(ref)
+		}
+		ev.Calls = append(ev.Calls, c)
+	}
+	return ev
+}
+
+type histCase struct {
+	H    []string `json:"h"`
+	Mode string   `json:"mode,omitempty"`
+}
+
+// histCases: mode own replays every history in this process on one recomposer each; the default-recomposer modes run
+// every history in a fresh subprocess (alt.DefaultRecomposer is process wide).
+func histCases(args []string) {
+	fs := flag.NewFlagSet("hist", flag.ExitOnError)
+	mode := fs.String("mode", "own", "own | alt.Recompose | oj.Unmarshal | sen.Unmarshal")
+	fs.Parse(args)
+	lines := readLines(os.Stdin)
+	self, _ := os.Executable()
+	out := parallelMap(len(lines), func(i int) [][]byte {
+		var hc histCase
+		if err := json.Unmarshal(lines[i], &hc); err != nil {
+			panic(err)
+		}
+		m := *mode
+		if hc.Mode != "" {
+			m = hc.Mode
+		}
+		if m == "own" {
+			return [][]byte{mustJSON(runHistory(m, hc.H))}
+		}
+		cmd := exec.Command(self, "histchild", m)
+		cmd.Stdin = bytes.NewReader(lines[i])
+		var ob, eb bytes.Buffer
+		cmd.Stdout, cmd.Stderr = &ob, &eb
+		if err := cmd.Run(); err != nil {
+			fmt.Fprintln(os.Stderr, "histchild failed:", err, eb.String())
+			os.Exit(2)
+		}
+		return [][]byte{bytes.TrimSpace(ob.Bytes())}
+	})
+	w := bufio.NewWriterSize(os.Stdout, 1<<20)
+	for _, rs := range out {
+		for _, r := range rs {
+			w.Write(r)
+			w.WriteByte('\n')
+		}
+	}
+	w.Flush()
+}
+
+func histChild(args []string) {
+	lines := readLines(os.Stdin)
+	var hc histCase
+	if err := json.Unmarshal(lines[0], &hc); err != nil {
+		panic(err)
+	}
+	os.Stdout.Write(mustJSON(runHistory(args[0], hc.H)))
+	os.Stdout.Write([]byte("\n"))
+}
+
+// ---------------------------------------------------------------- Inverse on the C15 shapes
+
+type rtEvent struct {
+	Ev   string `json:"ev"`
+	API  string `json:"api"`
+	Ok   bool   `json:"ok"`
+	M    string `json:"m"`
+	Res  tvNode `json:"res"`
+	Orig tvNode `json:"orig"`
+}
+
+// registered: the types an interface-typed field may hold must be known to the recomposer (that is what the create key is for)
+func rtRecomposer() *alt.Recomposer {
+	r, err := alt.NewRecomposer(createKey, map[any]alt.RecomposeFunc{&enctypes.S1{}: nil, &enctypes.T{}: nil})
+	if err != nil {
+		panic(err)
+	}
+	return r
+}
+
+func rtOne(api string, rv reflect.Value) (ev rtEvent) {
+	ev = rtEvent{Ev: "rt", API: api, Orig: project(rv), Res: tvNode{"g": "other"}}
+	defer func() {
+		if r := recover(); r != nil {
+			ev.Ok, ev.M = false, trunc(fmt.Sprintf("panic: %v", r))
+		}
+	}()
+	ptr := reflect.New(rv.Type())
+	var err error
+	switch api {
+	case "alt.Decompose->Recompose":
+		_, err = rtRecomposer().Recompose(alt.Decompose(rv.Interface(), decOpts()), ptr.Interface())
+	case "oj.Marshal->Unmarshal":
+		var b []byte
+		if b, err = oj.Marshal(rv.Interface(), decOpts()); err == nil {
+			err = oj.Unmarshal(b, ptr.Interface(), rtRecomposer())
+		}
+	case "sen.String->Unmarshal":
+		err = sen.Unmarshal([]byte(sen.String(rv.Interface(), decOpts())), ptr.Interface(), rtRecomposer())
+	}
+	if err != nil {
+		ev.M = trunc(err.Error())
+		return
+	}
+	ev.Ok = true
+	ev.Res = project(ptr.Elem())
+	return
+}
+
+func rtCases(args []string) {
+	fs := flag.NewFlagSet("rt", flag.ExitOnError)
+	casesOut := fs.String("cases", "", "write one case per trace line here")
+	fs.Parse(args)
+	lines := readLines(os.Stdin)
+	apis := []string{"alt.Decompose->Recompose", "oj.Marshal->Unmarshal", "sen.String->Unmarshal"}
+	out := parallelMap(len(lines), func(i int) [][]byte {
+		var c caseSpec
+		if err := json.Unmarshal(lines[i], &c); err != nil {
+			panic(err)
+		}
+		rv, err := buildValue(&c)
+		if err != nil {
+			fmt.Fprintln(os.Stderr, "encode:", err)
+			os.Exit(2)
+		}
+		var res [][]byte
+		for _, api := range apis {
+			res = append(res, mustJSON(rtOne(api, rv)), mustJSON(map[string]any{"f": c.F, "top": c.Top, "v": c.V, "api": api}))
+		}
+		return res
+	})
+	w := bufio.NewWriterSize(os.Stdout, 1<<20)
+	var cw *bufio.Writer
+	if *casesOut != "" {
+		cf, err := os.Create(*casesOut)
+		if err != nil {
+			panic(err)
+		}
+		defer cf.Close()
+		cw = bufio.NewWriterSize(cf, 1<<20)
+		defer cw.Flush()
+	}
+	for _, rs := range out {
+		for k := 0; k+1 < len(rs); k += 2 {
+			w.Write(rs[k])
+			w.WriteByte('\n')
+			if cw != nil {
+				cw.Write(rs[k+1])
+				cw.WriteByte('\n')
+			}
+		}
+	}
+	w.Flush()
+}
